@@ -115,14 +115,15 @@ Qed.
 
 Lemma N_of_bits_app a b : N_of_bits (a ++ b) = N_of_bits a + 2 ^ N.of_nat (length a) * N_of_bits b.
 Proof.
-  induction a as [|x a IH]; [simpl; lia|].
-  cbn [app N_of_bits length]. rewrite IH, Nat2N.inj_succ, N.pow_succ_r'. lia.
+  induction a as [|x a IH].
+  { cbn [app length N_of_bits]. change (N.of_nat 0) with 0. rewrite N.pow_0_r. lia. }
+  cbn [app N_of_bits length]. rewrite IH, Nat2N.inj_succ, N.pow_succ_r'. ring.
 Qed.
 
 Lemma N_of_bits_zero_iff l : N_of_bits l = 0 <-> forallb negb l = true.
 Proof.
-  induction l as [|b r IH]; simpl; [tauto|].
-  destruct b; simpl N.b2n; simpl negb; simpl andb.
+  induction l as [|b r IH]; cbn [N_of_bits forallb]; [tauto|].
+  destruct b; cbn [N.b2n negb andb].
   - split; [lia|discriminate].
   - rewrite <- IH. lia.
 Qed.
@@ -157,4 +158,4 @@ Lemma bw_last_spec n : n < 2 ^ bw_last n.
 Proof. unfold bw_last. pose proof (log2c_spec (n + 1)). lia. Qed.
 
 Lemma popcount_le l : popcount l <= N.of_nat (length l).
-Proof. induction l as [|b r IH]; simpl length; [simpl; lia|]. cbn [popcount]. destruct b; simpl N.b2n; lia. Qed.
+Proof. induction l as [|b r IH]; [cbn; lia|]. cbn [popcount length]. rewrite Nat2N.inj_succ. destruct b; cbn [N.b2n]; lia. Qed.
